@@ -1,10 +1,11 @@
 /- C03 helper lemmas: well-formed histories and the invariant along whole runs. -/
-import BV.C03.Detach
+import BV.C03.Restart
 namespace BV.C03.Lemmas
 open BV.C03 BV.C03.Spec
 
 /-- The active chain (tip first) after one operation. -/
 def chainStep (c : List Block) : Op → List Block
+  | .restart _ _ => c
   | .connect b _ _ => b :: c
   | .attach b _ => b :: c
   | .detach n => c.drop n
@@ -15,8 +16,9 @@ def chainStep (c : List Block) : Op → List Block
 valid on the current fold and whose id (hash) is not already active; detach at most the
 whole chain; flush and fetch at any time with any parameters. -/
 def OpOk (c : List Block) : Op → Prop
-  | .connect b _ _ => validBlock (utxoRev c) (c.length + 1) b ∧ b.id ∉ c.map (·.id)
-  | .attach b _ => validBlock (utxoRev c) (c.length + 1) b ∧ b.id ∉ c.map (·.id)
+  | .connect b _ _ => validBlock (utxoRev c) (c.length + 1) b ∧ b.id ∉ c.map (·.id) ∧ b.id ≠ 0
+  | .attach b _ => validBlock (utxoRev c) (c.length + 1) b ∧ b.id ∉ c.map (·.id) ∧ b.id ≠ 0
+  | .restart _ _ => True
   | .detach n => n ≤ c.length
   | .flush _ _ _ => True
   | .fetch _ => True
@@ -28,13 +30,14 @@ def HistOk : List Block → List Op → Prop
 theorem step_inv (s : State) (op : Op) (h : Inv s) (hok : OpOk s.chainRev op) :
     ∃ s', step s op = some s' ∧ Inv s' ∧ s'.chainRev = chainStep s.chainRev op := by
   cases op with
-  | connect b bip30 full => exact connect_inv s b true bip30 full h hok.1 hok.2
-  | attach b full => exact connect_inv s b false false full h hok.1 hok.2
+  | restart aborts fulls => exact restart_op_inv s aborts fulls h
+  | connect b bip30 full => exact connect_inv s b true bip30 full h hok.1 hok.2.1 hok.2.2
+  | attach b full => exact connect_inv s b false false full h hok.1 hok.2.1 hok.2.2
   | detach n =>
     obtain ⟨s', v', hd, hi, hc, _⟩ := detachMany_inv n s emptyView h hok (vagree_empty _)
     exact ⟨s', by simp [step, hd], hi, hc⟩
   | flush mode full due =>
-    have := flushAt_inv s (tipId s.chainRev) mode full due h
+    have := flushAt_inv s (tipId s.chainRev) mode full due h rfl
     exact ⟨_, rfl, this.1, this.2.1⟩
   | fetch o => exact ⟨_, rfl, fetch_inv s o h, rfl⟩
 
